@@ -16,7 +16,7 @@ type MapCodec struct {
 func (m *MapCodec) Read(r *ReadBuf, p unsafe.Pointer) error {
 	// p is a pointer to a map pointer
 	if *(*unsafe.Pointer)(p) == nil {
-		*(*unsafe.Pointer)(p) = m.New(r)
+		*(*unsafe.Pointer)(p) = unsafe.Pointer(reflect.MakeMap(m.rtype).Pointer())
 	}
 	mp := *(*unsafe.Pointer)(p)
 
@@ -96,7 +96,9 @@ func (m *MapCodec) Skip(r *ReadBuf) error {
 }
 
 func (m *MapCodec) New(r *ReadBuf) unsafe.Pointer {
-	return unsafe.Pointer(reflect.MakeMap(m.rtype).Pointer())
+	// New returns a pointer to a (nil) map variable. Read makes the map. The
+	// variable is allocated as a pointer so the GC sees the map it holds.
+	return r.Alloc(pointerType)
 }
 
 func (m *MapCodec) Omit(p unsafe.Pointer) bool {
